@@ -1,5 +1,6 @@
 import SimVerif.Gen.LEpoch
 import SimVerif.Gen.LEpochDb
+import SimVerif.Gen.LIdle
 import SimVerif.Model.Tracker
 /-!
 # Tie: generated decision kernels = hand-written model (DESIGN.md 14.8)
@@ -91,5 +92,33 @@ theorem tie_epoch_current (m : List (Nat × Nat)) (s : Nat) :
 /-- without an epoch database the three calls do nothing -/
 theorem tie_epoch_none (s n : Nat) :
     epoch_next none s = (none, none) ∧ epoch_skip none s n = ((), none) ∧ epoch_current none s = (none, none) := ⟨rfl, rfl, rfl⟩
+
+/-! ### the idle lookup (`SortLookup::IdleLookup`, `VisualSortLookup::IdleLookup`) -/
+
+/-- **the idle rule of the source**: a track answers the idle lookup of a scene iff it belongs to that scene, was not updated in
+the scene's current epoch, and is not expired — collected or not — which is the filter of the model's `idle` -/
+theorem tie_idle_lookup_sort (cfg : Tracker.Cfg) (st : Tracker.St) (scene : Nat) (t : Tracker.Trk) :
+    idle_lookup_sort (some st.epochs) cfg.maxIdle scene t.scene t.lastUpd =
+      (t.scene == scene && !Tracker.expired cfg st t && !(t.lastUpd == Tracker.epochOf st scene)) := by
+  unfold idle_lookup_sort
+  rw [tie_epoch_baked, tie_epoch_current]
+  simp only [Option.getD_some, epochIn_eq_epochOf]
+  by_cases hs : scene = t.scene
+  · subst hs
+    cases Tracker.expired cfg st t <;> by_cases he : t.lastUpd = Tracker.epochOf st t.scene <;> simp [he]
+  · have : ¬ t.scene = scene := fun h => hs h.symm
+    simp [hs, this]
+
+theorem tie_idle_lookup_visual (cfg : Tracker.Cfg) (st : Tracker.St) (scene : Nat) (t : Tracker.Trk) :
+    idle_lookup_visual (some st.epochs) cfg.maxIdle scene t.scene t.lastUpd =
+      (t.scene == scene && !Tracker.expired cfg st t && !(t.lastUpd == Tracker.epochOf st scene)) := by
+  unfold idle_lookup_visual
+  rw [tie_epoch_baked, tie_epoch_current]
+  simp only [Option.getD_some, epochIn_eq_epochOf]
+  by_cases hs : scene = t.scene
+  · subst hs
+    cases Tracker.expired cfg st t <;> by_cases he : t.lastUpd = Tracker.epochOf st t.scene <;> simp [he]
+  · have : ¬ t.scene = scene := fun h => hs h.symm
+    simp [hs, this]
 
 end SimVerif.Tie
